@@ -348,8 +348,14 @@ def install_world(schema, holder):
             # carries the field's response path all the same
             k = mix(salt, 12) % 6
             preset = {0: None, 1: ["upstream", 0], 2: list(info.path), 3: [], 4: ["x"], 5: None}[k]
-            nodes = [info.nodes[0]] if mix(salt, 13) % 3 == 0 else None
-            raise WErr(o[1], nodes=nodes, path=preset, extensions=o[2])
+            # pre-set nodes: the field's first node, or its LAST one (add_error keeps nodes that are already set)
+            kn = mix(salt, 13) % 4
+            nodes = {0: None, 1: [info.nodes[0]], 2: [info.nodes[-1]], 3: None}[kn]
+            err = WErr(o[1], nodes=nodes, path=preset, extensions=o[2])
+            if nodes is not None:
+                err._preset_locs = [n.loc[0] for n in nodes if n.loc]
+                err._first_loc = info.nodes[0].loc[0] if info.nodes[0].loc else None
+            raise err
         if o[0] == "boom":
             raise WorldError("unexpected")
         return raw_to_py(o[1], w.seed % len(OBJ_STYLES), salt)
@@ -517,7 +523,15 @@ def canon_error(e):
     locs = [n.loc[0] for n in (getattr(e, "nodes", None) or []) if getattr(n, "loc", None)]
     path = list(e.path) if getattr(e, "path", None) is not None else None
     if getattr(e, "from_world", False):
-        return {"kind": "resolver", "path": path, "locs": locs, "msg": e.message,
+        kind = "resolver"
+        if getattr(e, "_preset_locs", None) is not None:
+            # the resolver raised the error with `nodes` already set: they are kept; canonicalised to the field's node,
+            # which is what the model records
+            if locs == e._preset_locs:
+                locs = [e._first_loc] if e._first_loc is not None else locs
+            else:
+                kind = "resolver:preset-nodes-not-kept"
+        return {"kind": kind, "path": path, "locs": locs, "msg": e.message,
                 "ext": canon_value(dict(e.extensions)) if e.extensions else None}
     if isinstance(e, CoercionError):
         return {"kind": "coercion", "path": path, "locs": locs, "msg": None, "ext": None}
